@@ -364,7 +364,6 @@ def compare(ctx, fmt, orig, tags, loaded, exact_p=True, resorted_ok=False, case=
     # ---- boundaries and orientations
     fac0 = np.asarray(orig.facets)
     fac1 = np.asarray(loaded.facets)
-    f2t0 = np.asarray(orig.f2t)
     for name, ref in tags.bnd.items():
         got = None if loaded.boundaries is None else loaded.boundaries.get(name)
         if got is None:
@@ -702,7 +701,6 @@ def d_names(ctx, name):
 
 def d_empty_and_none(ctx, name):
     # no tags at all; empty tags only; default tags
-    rng = ctx.rng()
     for kind in ("tri", "quad", "tet", "hex"):
         for order in (1, 2):
             mesh = _interface_mesh(kind, order)
@@ -744,7 +742,6 @@ def d_tri_oriented(ctx, name):
 
 def d_closed_interfaces(ctx, name):
     # oriented closed interfaces around subdomains (both sides), the documented use of orientation
-    rng = ctx.rng()
     for kind in ("tri", "quad", "tet", "hex"):
         for order in (1, 2):
             mesh = _interface_mesh(kind, order)
